@@ -257,26 +257,40 @@ def case_loglik_branch(rng):
 
 
 def case_site_rates(rng):
-    """d rates_k / d shape of the Weibull site model: autograd vs proved enclosure."""
+    """d rates_k / d shape and d rates_k / d mu of the Weibull site model (mu: the optional relative rate, also at its
+    conventional starting value 1.0 exactly): autograd vs proved enclosure."""
     torch = impl.load()
     from torchtree.evolution.site_model import WeibullSiteModel
     K = rng.randint(2, 6)
     shape = math.exp(rng.uniform(-1.5, 1.5))
     pinv = rng.uniform(0.05, 0.6) if rng.random() < 0.5 else None
+    mu = None
+    if rng.random() < 0.5:
+        mu = 1.0 if rng.random() < 0.5 else round(math.exp(rng.uniform(-1, 1)), 3)
     d = {"id": "sm", "type": "WeibullSiteModel", "categories": K, "shape": impl.param_json("shape", [shape])}
     if pinv is not None:
         d["invariant"] = impl.param_json("pinv", [pinv])
+    if mu is not None:
+        d["mu"] = impl.param_json("mu", [mu])
     dic = {}
     m = WeibullSiteModel.from_json(d, dic)
-    dic["shape"].requires_grad = True
-    dic["shape"].tensor = dic["shape"].tensor
+    wrt = "mu" if (mu is not None and rng.random() < 0.6) else "shape"
+    dic[wrt].requires_grad = True
+    dic[wrt].tensor = dic[wrt].tensor
     k = rng.randrange(K) + (1 if pinv is not None else 0)
     r = m.rates()
-    r[..., k].backward()
-    g = float(dic["shape"].tensor.grad)
+    try:
+        r[..., k].backward()
+        gt = dic[wrt].tensor.grad
+    except RuntimeError:        # the value does not depend on the parameter in the autograd graph at all
+        gt = None
+    g = float(gt) if gt is not None else float("nan")       # no gradient at all: reported as a difference below
     inv = "None" if pinv is None else f"(Some (dconst {C.qlit(pinv)}))"
-    expr = f"show_d (lk (weibull_rates NumD (dvar {C.qlit(shape)}) {C.natlit(K)} {inv} None) {C.natlit(k)} (dconst 0))"
-    return dict(kind="site_rates", desc=dict(K=K, shape=shape, pinv=pinv, k=k), value=float(r[..., k].detach()), grad=g, expr=expr)
+    mus = "None" if mu is None else f"(Some {_dq(mu, wrt == 'mu')})"
+    expr = (f"show_d (lk (weibull_rates NumD {_dq(shape, wrt == 'shape')} {C.natlit(K)} {inv} {mus}) {C.natlit(k)} "
+            f"(dconst 0))")
+    return dict(kind="site_rates", desc=dict(K=K, shape=shape, pinv=pinv, mu=mu, wrt=wrt, k=k),
+                value=float(r[..., k].detach()), grad=g, expr=expr)
 
 
 def _dq(v, is_var):
